@@ -287,11 +287,39 @@ int exec_special_op(World &w, const Op &op) {
         std::vector<int> xs, ys, zs;
         auto axis = [](int c) { std::vector<int> v; for (int d = -2; d <= 2; d++) if (c + d >= 0) v.push_back(c + d); v.push_back(INT_MAX); if (c + 2 < 9) v.push_back(9); return v; };
         xs = axis(lib[0]); ys = axis(lib[1]); zs = axis(lib[2]);
+        // the core cube (every file: all of it) ...
+        std::vector<std::vector<int> > triples;
+        for (int x : xs) for (int y : ys) for (int z : zs) triples.push_back({x, y, z});
+        size_t core = triples.size();
+        // ... and the cross: one component taken from values where packed or truncated encodings of a version carry or wrap (next to
+        // powers of ten and of two, negative, the library's component shifted by such a radix), the other two from the core axes.
+        // The cross has a few thousand triples; every file takes the residue class of its seed modulo 8, so a batch covers all of it.
+        std::vector<std::vector<int> > cross;
+        {
+            static const int radix[] = {10, 100, 256, 1000, 65536, 1000000};
+            const std::vector<int> *ax[3] = {&xs, &ys, &zs};
+            for (int pos = 0; pos < 3; pos++) {
+                std::set<int> ext;
+                for (int rdx : radix) { ext.insert(rdx - 1); ext.insert(rdx); ext.insert(rdx + 1); ext.insert(lib[(size_t) pos] + rdx); ext.insert(lib[(size_t) pos] - rdx); ext.insert(-rdx); }
+                ext.insert(-1); ext.insert(INT_MIN); ext.insert(INT_MAX - 1);
+                for (int e : ext) {
+                    bool in_core = false; for (int c : *ax[pos]) if (c == e) in_core = true;
+                    if (in_core) continue;
+                    const std::vector<int> &A = *ax[(pos + 1) % 3], &B = *ax[(pos + 2) % 3];
+                    for (int p1 : A) for (int p2 : B) { std::vector<int> t(3); t[(size_t) pos] = e; t[(size_t) ((pos + 1) % 3)] = p1; t[(size_t) ((pos + 2) % 3)] = p2; cross.push_back(t); }
+                }
+            }
+        }
+        unsigned cls = (unsigned) (op.sub % 8);
+        for (size_t i = 0; i < cross.size(); i++) if (i % 8 == cls) triples.push_back(cross[i]);
+        w.cnt.inc("version.cross_triples_total", cross.size());
         uint64_t opens = 0, cases = 0;
-        for (int x : xs) for (int y : ys) for (int z : zs) {
+        for (size_t ti = 0; ti < triples.size(); ti++) {
+            int x = triples[ti][0], y = triples[ti][1], z = triples[ti][2];
             if (w.failed()) break;
             if (!h5_set_version(cp, x, y, z)) { w.fail("C10.gate", "harness: could not rewrite the stored version"); break; }
             cases++;
+            if (ti >= core) w.cnt.inc("version.cross_triples");
             bool can_read = x == lib[0] && y <= lib[1];
             bool can_write = x == lib[0] && y == lib[1] && z == lib[2];
             for (int mode = 0; mode < 2 && !w.failed(); mode++) for (int force = 0; force < 2 && !w.failed(); force++) {
@@ -308,8 +336,7 @@ int exec_special_op(World &w, const Op &op) {
         w.cnt.inc("version.triples", cases); w.cnt.inc("version.opens", opens);
         // ordering laws over all pairs of the cube (pure; enumerated alongside)
         if (!w.failed()) {
-            std::vector<std::vector<int> > all;
-            for (int x : xs) for (int y : ys) for (int z : zs) all.push_back({x, y, z});
+            const std::vector<std::vector<int> > &all = triples;
             uint64_t pairs = 0;
             for (auto &p : all) for (auto &q : all) {
                 FormatVersion A(p), B(q);
